@@ -50,7 +50,8 @@ SYSCALL_COSTS = (0.0, 0.0, 1e-5, 1e-4, 1e-3)  # simulated seconds per is_alive()
 class World:
     """Per-run process table and configuration shared by the stand-ins."""
 
-    def __init__(self, sim, ncpu=4, shared=(), speeds=SPEEDS, start_delays=START_DELAYS, rtt=0.0, item_cost=0.0, fork_cost=0.0, syscall_cost=0.0):
+    def __init__(self, sim, ncpu=4, shared=(), speeds=SPEEDS, start_delays=START_DELAYS, rtt=0.0, item_cost=0.0, fork_cost=0.0, syscall_cost=0.0,
+                 term_ignored=False):
         self.sim = sim
         self.ncpu = ncpu
         self.shared = list(shared)  # objects memo-shared (read-only) with workers
@@ -59,6 +60,7 @@ class World:
         self.rtt = rtt
         self.item_cost = item_cost
         self.fork_cost = fork_cost
+        self.term_ignored = term_ignored
         # with very many workers a millisecond per call would alone eat the slack of the deadline bound
         self.syscall_cost = syscall_cost if ncpu <= 40 else min(syscall_cost, 1e-4)
         self.procs = []
@@ -197,7 +199,16 @@ class SimProcess:
             self._w.sim.kill(self.task, "Process.kill")
             self._w.sim.yield_(0.0, "kill-sent")
 
-    terminate = kill
+    def terminate(self):
+        # SIGTERM: lethal only if the (inherited) disposition is the default one
+        self._w.sim.check_alive()
+        if self.started:
+            if self._w.term_ignored:
+                self._w.sim.ev("signal-ignored", self.pid, int(_signal.SIGTERM))
+                self._w.sim.count("signal_ignored_by_worker")
+            else:
+                self._w.sim.kill(self.task, "Process.terminate")
+            self._w.sim.yield_(0.0, "kill-sent")
 
     def close(self):
         pass
@@ -520,7 +531,13 @@ def sim_kill(pid, sig):
     if sig == 0:
         return
     if sig in (_signal.SIGKILL, _signal.SIGTERM, _signal.SIGINT):
-        sim.kill(p.task, "os.kill")
+        if sig != _signal.SIGKILL and w.term_ignored:
+            # the host process ignores / handles / blocks SIGTERM and SIGINT (shell `trap '' TERM`, a
+            # server's graceful-shutdown handler) and forked workers inherit that: nothing happens
+            sim.ev("signal-ignored", p.pid, int(sig))
+            sim.count("signal_ignored_by_worker")
+        else:
+            sim.kill(p.task, "os.kill")
         sim.yield_(w.syscall_cost, "kill-sent")
         return
     raise UnsupportedSeam("signal %r is not simulated" % (sig,))
